@@ -290,6 +290,8 @@ type hypPoly struct {
 }
 
 type divDef struct {
+	lin []*remFact // extra linear defining facts 0 <= f <= hi (named bits of the bitwise fallback); when present
+	// they define q exactly and the (non-linear) quotient inequalities are not emitted
 	q *Term // skolem variable
 	r *Poly // dividend
 	m *big.Int
@@ -821,6 +823,9 @@ func (tr *intTr) lazy1(t *Term) *Poly {
 			r.iv = kiv(big0, big1)
 			return r
 		}
+		if r := tr.bitwise(OBvAnd, a, b); r != nil {
+			return r
+		}
 		fail("int translation: bvand of two symbolic operands (%s & %s)", termString(a, 2), termString(b, 2))
 	case OBvOr:
 		a, b := t.args[0], t.args[1]
@@ -846,6 +851,9 @@ func (tr *intTr) lazy1(t *Term) *Poly {
 					return pSub(pAdd(tr.canon(x), pConst(cst.val)), and)
 				}
 			}
+		}
+		if r := tr.bitwise(OBvOr, a, b); r != nil {
+			return r
 		}
 		fail("int translation: bvor of overlapping operands (%s | %s)", termString(a, 2), termString(b, 2))
 	case OBvXor:
@@ -899,6 +907,9 @@ func (tr *intTr) lazy1(t *Term) *Poly {
 				return r
 			}
 		}
+		if r := tr.bitwise(OBvXor, a, b); r != nil {
+			return r
+		}
 		fail("int translation: bvxor of symbolic operands (%s ^ %s)", termString(a, 2), termString(b, 2))
 	case OIte:
 		return tr.itePoly(tr.boolean(t.args[0]), tr.lazy(t.args[1]), tr.lazy(t.args[2]))
@@ -918,6 +929,82 @@ func (tr *intTr) lazy1(t *Term) *Poly {
 	}
 	fail("int translation: unsupported op in %s", termString(t, 2))
 	return nil
+}
+
+
+// bitwise is the general fallback for and/or/xor of two NARROW symbolic operands (both known to lie in
+// [0, 2^n) with n <= 16): bit k of x is floor(x/2^k) - 2*floor(x/2^(k+1)), and the operation is applied per bit
+// (and: a*b, or: a+b-a*b, xor: a+b-2*a*b). Exact; every division is by a constant.
+func (tr *intTr) bitwise(op Op, a, b *Term) *Poly {
+	ca, cb := tr.canon(a), tr.canon(b)
+	ia, ib := tr.ivOf(ca), tr.ivOf(cb)
+	if !ia.known() || !ib.known() || ia.lo.Sign() < 0 || ib.lo.Sign() < 0 {
+		return nil
+	}
+	n := ia.hi.BitLen()
+	if m := ib.hi.BitLen(); m > n {
+		n = m
+	}
+	if n > 16 {
+		return nil
+	}
+	bit := func(c *Poly, k int) *Poly {
+		r := pSub(tr.divPoly(c, pow2(k)), pScale(tr.divPoly(c, pow2(k+1)), big.NewInt(2)))
+		r.iv = ivMeet(r.iv, kiv(big0, big1))
+		return r
+	}
+	r := pConst(big0)
+	for k := 0; k < n; k++ {
+		x, y := bit(ca, k), bit(cb, k)
+		var z *Poly
+		switch op {
+		case OBvAnd:
+			z = pMul(x, y)
+		case OBvOr:
+			z = pSub(pAdd(x, y), pMul(x, y))
+		default:
+			z = pSub(pAdd(x, y), pScale(pMul(x, y), big.NewInt(2)))
+		}
+		z.iv = kiv(big0, big1)
+		if _, isC := z.isConst(); !isC && len(z.ms) > 1 {
+			z = tr.nameBit(op, z, x, y)
+		}
+		r = pAdd(r, pScale(z, pow2(k)))
+	}
+	r.iv = ivMeet(r.iv, kiv(big0, new(big.Int).Sub(pow2(n), big1)))
+	return r
+}
+
+// nameBit replaces the 0/1 polynomial z = x op y by a fresh atom defined by LINEAR facts (exact for 0/1 operands),
+// so that chains of bitwise operations do not multiply out.
+func (tr *intTr) nameBit(op Op, z, x, y *Poly) *Poly {
+	dt := IDiv(polyTerm(z), IntC(big1))
+	def, ok := tr.divSk[dt]
+	if !ok {
+		q := Var("b!"+strconv.FormatInt(dt.id, 36), IntSort)
+		def = &divDef{q: q, r: z, m: big1}
+		qa := pAtom(q, kiv(big0, big1))
+		f := func(p *Poly, hi int64) { def.lin = append(def.lin, &remFact{f: p, hi: big.NewInt(hi)}) }
+		switch op {
+		case OBvAnd: // z <= x, z <= y, z >= x + y - 1
+			f(pSub(x, qa), 1)
+			f(pSub(y, qa), 1)
+			f(pAdd(pSub(qa, pAdd(x, y)), pConst(big1)), 1)
+		case OBvOr: // z >= x, z >= y, z <= x + y
+			f(pSub(qa, x), 1)
+			f(pSub(qa, y), 1)
+			f(pSub(pAdd(x, y), qa), 1)
+		default: // xor: z <= x + y, z >= x - y, z >= y - x, z <= 2 - x - y
+			f(pSub(pAdd(x, y), qa), 2)
+			f(pSub(qa, pSub(x, y)), 2)
+			f(pSub(qa, pSub(y, x)), 2)
+			f(pSub(pSub(pConst(big.NewInt(2)), pAdd(x, y)), qa), 2)
+		}
+		tr.divSk[dt] = def
+		tr.skDef[q] = def
+		tr.atomIv[q] = kiv(big0, big1)
+	}
+	return pAtom(def.q, kiv(big0, big1))
 }
 
 func (tr *intTr) opaque(t *Term, args []*Term) *Poly {
@@ -1309,7 +1396,15 @@ func (tr *intTr) sideConstraints(roots []*Term) []*Term {
 				iv := tr.atomIv[v] // full width, or the tighter bound scanned from the hypotheses
 				side = append(side, ILe(IntC(iv.lo), v), ILe(v, IntC(iv.hi)))
 			}
-			if def, ok := tr.skDef[v]; ok {
+			if def, ok := tr.skDef[v]; ok && len(def.lin) > 0 {
+				for _, lf := range def.lin {
+					ft := polyTerm(lf.f)
+					c1, c2 := ILe(IntC(big0), ft), ILe(ft, IntC(lf.hi))
+					side = append(side, c1, c2)
+					next = append(next, c1, c2)
+				}
+				side = append(side, ILe(IntC(big0), v), ILe(v, IntC(big1)))
+			} else if ok {
 				// m*q <= r < m*q + m
 				rt := polyTerm(def.r)
 				mq := IMul(v, IntC(def.m))
